@@ -222,3 +222,11 @@ def uf_names_of(arrs, ctx):
     return names
 
 
+
+
+def lane_eq(batched: SArr, single: SArr, lane):
+    """batched[lane, ...] == single[...] for every (concrete) trailing index"""
+    rest = batched.shape[1:]
+    if tuple(rest) != tuple(single.shape):
+        return False
+    return sand(*[seq(batched.at((lane,) + r), single.at(r)) for r in itertools.product(*[range(d) for d in rest])])
